@@ -46,8 +46,21 @@ namespace pika::threads::detail {
     {
         if (&ec != &throws) ec = make_success_code();
 
-        return set_thread_state(
-            id, state, stateex, priority, execution::thread_schedule_hint(), retry_on_active, ec);
+        // re-queue the thread on the worker it ran on last (as execution_agent::do_resume does):
+        // without a hint the schedulers pick a queue round robin, which moves a thread that was
+        // given a worker hint to another worker of a non-stealing pool
+        execution::thread_schedule_hint schedulehint;
+        if (id)
+        {
+            std::size_t const last_worker = get_thread_id_data(id)->get_last_worker_thread_num();
+            if (last_worker != std::size_t(-1))
+            {
+                schedulehint =
+                    execution::thread_schedule_hint(static_cast<std::int16_t>(last_worker));
+            }
+        }
+
+        return set_thread_state(id, state, stateex, priority, schedulehint, retry_on_active, ec);
     }
 
     ///////////////////////////////////////////////////////////////////////////
